@@ -1594,6 +1594,239 @@ func clipS(s string) string {
 	return s
 }
 
+// ---------------------------------------------------------------- whole memory steps on pre-filled memory, any operands
+
+// The program fills k words of memory, executes one memory instruction with arbitrary operands
+// (inside, straddling, beyond the current memory, far beyond, overflowing), and returns the whole
+// memory (MSIZE 0 RETURN).  Compared with prepare_mem + instruction body of the model (memory
+// image and gas), and with the specification on the zero-extended memory.
+func checkMemRun(c *vh.Ctx, m *vh.Model, w *world) {
+	r := c.Rng
+	input := nonzeroBytes(r, 40)
+	offs := func(memLen int) []*big.Int {
+		out := []*big.Int{big.NewInt(0), big.NewInt(1), big.NewInt(int64(memLen - 32)), big.NewInt(int64(memLen - 31)), big.NewInt(int64(memLen - 1)),
+			big.NewInt(int64(memLen)), big.NewInt(int64(memLen + 1)), big.NewInt(int64(memLen + 33)), big.NewInt(5000), big.NewInt(100000),
+			sub(pow2(64), 32), sub(pow2(64), 1), pow2(64), add(pow2(64), 5), add(pow2(255), 7), big.NewInt(0xffffffffe0 - 31), big.NewInt(0xffffffffe0 + 1)}
+		var res []*big.Int
+		for _, o := range out {
+			if o.Sign() >= 0 {
+				res = append(res, o)
+			}
+		}
+		return res
+	}
+	lens := []*big.Int{big.NewInt(0), big.NewInt(1), big.NewInt(31), big.NewInt(32), big.NewInt(33), big.NewInt(100), big.NewInt(5000), pow2(64), sub(pow2(256), 1)}
+	type kase struct {
+		kind string
+		args []*big.Int // operands in model order
+	}
+	cmem32 := func(words int) uint64 { return cmem(uint64(words)) }
+	ks := []int{0, 3}
+	if c.Thorough() {
+		ks = []int{0, 1, 2, 3, 7}
+	} else {
+		lens = []*big.Int{big.NewInt(0), big.NewInt(1), big.NewInt(32), big.NewInt(100), big.NewInt(5000), pow2(64)}
+	}
+	for _, k := range ks {
+		memLen := 32 * k
+		mem := nonzeroBytes(r, memLen)
+		var prefill []byte
+		for i := 0; i < k; i++ {
+			prefill = append(push32(push32(prefill, new(big.Int).SetBytes(mem[32*i:32*i+32])), big.NewInt(int64(32*i))), 0x52)
+		}
+		prefillGas := uint64(9*k) + cmem32(k)
+		var cases []kase
+		for _, o := range offs(memLen) {
+			cases = append(cases, kase{"mload", []*big.Int{o}}, kase{"mstore", []*big.Int{o, rand256(r)}}, kase{"mstore8", []*big.Int{o, rand256(r)}})
+			for _, l := range lens {
+				cases = append(cases, kase{"sha3", []*big.Int{o, l}}, kase{"return", []*big.Int{o, l}}, kase{"log", []*big.Int{o, l}})
+				cases = append(cases, kase{"calldatacopy", []*big.Int{o, big.NewInt(int64(r.Intn(50))), l}})
+				if r.Chance(30) {
+					cases = append(cases, kase{"codecopy", []*big.Int{o, big.NewInt(int64(r.Intn(80))), l}})
+				}
+			}
+		}
+		for _, ka := range cases {
+			code := append([]byte{}, prefill...)
+			var opGasConst uint64                    // pushes of the operands
+			suffix := []byte{0x59, 0x60, 0x00, 0xf3} // MSIZE PUSH1 0 RETURN
+			suffixGas := uint64(2 + 3)
+			valueOp := false
+			switch ka.kind {
+			case "mload":
+				code = append(push32(code, ka.args[0]), 0x51)
+				opGasConst, valueOp = 3, true
+			case "mstore":
+				code = append(push32(push32(code, ka.args[1]), ka.args[0]), 0x52)
+				opGasConst = 6
+			case "mstore8":
+				code = append(push32(push32(code, ka.args[1]), ka.args[0]), 0x53)
+				opGasConst = 6
+			case "sha3":
+				code = append(push32(push32(code, ka.args[1]), ka.args[0]), 0x20)
+				opGasConst, valueOp = 6, true
+			case "log":
+				code = append(push32(push32(code, ka.args[1]), ka.args[0]), 0xa0)
+				opGasConst = 6
+			case "return":
+				code = append(push32(push32(code, ka.args[1]), ka.args[0]), 0xf3)
+				opGasConst, suffix, suffixGas = 6, nil, 0
+			case "calldatacopy":
+				code = append(push32(push32(push32(code, ka.args[2]), ka.args[1]), ka.args[0]), 0x37)
+				opGasConst = 9
+			case "codecopy":
+				code = append(push32(push32(push32(code, ka.args[2]), ka.args[1]), ka.args[0]), 0x39)
+				opGasConst = 9
+			}
+			if valueOp { // store the value at 0 so that it is part of the returned image
+				code = append(code, 0x60, 0x00, 0x52)
+				suffixGas += 6
+			}
+			code = append(code, suffix...)
+			rr := w.run(params.MainnetChainConfig, blockSpring, code, input, progGas)
+			// model
+			args := ""
+			for _, a := range ka.args {
+				args += " " + hx(a)
+			}
+			var req string
+			avail := uint64(progGas) - prefillGas - opGasConst // contract.Gas when the instruction starts
+			switch ka.kind {
+			case "calldatacopy":
+				req = fmt.Sprintf("memrun datacopy %d %s %d %s%s", avail, vh.Hex(mem), cmem32(k), vh.Hex(input), args)
+			case "codecopy":
+				req = fmt.Sprintf("memrun datacopy %d %s %d %s%s", avail, vh.Hex(mem), cmem32(k), vh.Hex(code), args)
+			case "log":
+				req = fmt.Sprintf("memrun log %d %s %d 0%s", avail, vh.Hex(mem), cmem32(k), args)
+			default:
+				req = fmt.Sprintf("memrun %s %d %s %d%s", ka.kind, avail, vh.Hex(mem), cmem32(k), args)
+			}
+			f := strings.Fields(m.Ask(req))
+			want := "consumes-all"
+			spec := ""
+			if len(f) > 0 && f[0] == "ok" {
+				var img []byte
+				var g string
+				switch ka.kind {
+				case "mload", "sha3":
+					img = vh.UnHex(f[2])
+					v, _ := new(big.Int).SetString(strings.TrimPrefix(f[1], "0x"), 16)
+					if len(img) < 32 { // the MSTORE at 0 expands an empty memory (only SHA3 of an empty range)
+						img = append(img, make([]byte, 32-len(img))...)
+						suffixGas += 3
+					}
+					copy(img[:32], common.LeftPadBytes(v.Bytes(), 32))
+					g = f[3]
+				case "return":
+					img, g = vh.UnHex(f[1]), f[3]
+				case "log":
+					img, g = vh.UnHex(f[2]), f[3]
+				default:
+					img, g = vh.UnHex(f[1]), f[2]
+				}
+				gv, _ := new(big.Int).SetString(strings.TrimPrefix(g, "0x"), 16)
+				total := new(big.Int).Add(gv, new(big.Int).SetUint64(prefillGas+opGasConst+suffixGas))
+				if total.Cmp(big.NewInt(progGas)) <= 0 {
+					want = fmt.Sprintf("ok %s gas=%s", vh.Hex(img), total)
+				}
+				// specification on the zero-extended memory (independent of the model): only the cheap cases
+				if ka.kind == "mload" && ka.args[0].IsInt64() && ka.args[0].Int64() < 1<<20 {
+					o := int(ka.args[0].Int64())
+					ext := append(append([]byte{}, mem...), make([]byte, o+64)...)
+					word := append([]byte{}, ext[o:o+32]...)
+					newLen := ((o + 32 + 31) / 32) * 32
+					if newLen < memLen {
+						newLen = memLen
+					}
+					simg := append(append([]byte{}, mem...), make([]byte, newLen-memLen)...)
+					copy(simg[:32], word)
+					spec = vh.Hex(simg)
+				}
+			}
+			obs := "consumes-all"
+			if rr.errs == "" {
+				obs = fmt.Sprintf("ok %s gas=%d", vh.Hex(rr.ret), rr.used)
+			} else if rr.used != progGas || strings.HasPrefix(rr.errs, "panic") {
+				obs = fmt.Sprintf("%s used=%d", rr.errs, rr.used)
+			}
+			cas := fmt.Sprintf("mem=%dw %s%s", k, ka.kind, args)
+			c.Eval("memrun/"+ka.kind, cas)
+			ok := c.Correspond("interpreter memory step (content+gas)~prepare_mem+"+ka.kind, cas, clipS(obs), clipS(want))
+			if spec != "" && rr.errs == "" && vh.Hex(rr.ret) != spec {
+				c.Violate("memrun/"+cas, "MLOAD beyond / across the end of memory does not read the zero-extended memory",
+					map[string]interface{}{"kind": "memrun", "case": cas, "program": vh.Hex(code), "observed": vh.Hex(rr.ret), "expected": spec})
+			} else if !ok {
+				c.Violate("memrun/"+cas, fmt.Sprintf("memory step: implementation %s, model of the step %s", clipS(obs), clipS(want)),
+					map[string]interface{}{"kind": "memrun", "case": cas, "program": vh.Hex(code), "input": vh.Hex(input), "observed": obs, "expected": want})
+			}
+		}
+	}
+}
+
+// ---------------------------------------------------------------- instruction sequences: values and pointer discipline
+
+// Random straight-line sequences rich in DUP / SWAP / in-place instructions, run on a real Stack
+// and intPool (VerifAliasRun): the final values against the value-semantics model, and the
+// pointer invariant of OpsProofsAlias.v (stack slots pairwise distinct, none in the pool)
+// observed after every step.
+func checkAliasing(c *vh.Ctx, m *vh.Model) {
+	r := c.Rng
+	bin := []byte{0x01, 0x02, 0x03, 0x04, 0x05, 0x06, 0x07, 0x0b, 0x10, 0x11, 0x12, 0x13, 0x14, 0x16, 0x17, 0x18, 0x1a, 0x1b, 0x1c, 0x1d}
+	for it := 0; it < c.Scale(400, 20000); it++ {
+		var steps []vm.VerifAliasStep
+		var items []string
+		depth := 0
+		push := func() {
+			v := rand256(r)
+			if r.Chance(40) {
+				v = big.NewInt(int64(r.Intn(40)))
+			}
+			steps = append(steps, vm.VerifAliasStep{Op: 0x7f, Const: v})
+			items = append(items, "p:"+hx(v))
+			depth++
+		}
+		op := func(o byte, delta int) {
+			steps = append(steps, vm.VerifAliasStep{Op: o})
+			items = append(items, fmt.Sprintf("o:0x%02x", o))
+			depth += delta
+		}
+		n := 6 + r.Intn(24)
+		for len(steps) < n {
+			switch k := r.Intn(12); {
+			case depth < 2 || k == 0:
+				push()
+			case k <= 3: // DUPn within the stack
+				d := 1 + r.Intn(minInt(depth, 16))
+				if depth < 1000 {
+					op(byte(0x7f+d), 1)
+				}
+			case k <= 5 && depth >= 2: // SWAPn
+				d := 1 + r.Intn(minInt(depth-1, 16))
+				op(byte(0x8f+d), 0)
+			case k == 6:
+				op(0x50, -1)
+			case k == 7:
+				op([]byte{0x15, 0x19}[r.Intn(2)], 0)
+			case k == 8 && depth >= 3:
+				op([]byte{0x08, 0x09}[r.Intn(2)], -2)
+			default:
+				op(bin[r.Intn(len(bin))], -1)
+			}
+		}
+		final, aliasing, errs := vm.VerifAliasRun("spring", steps)
+		obs := "ok " + stackStr(final)
+		if errs != "" {
+			obs = "err " + errs
+		}
+		cas := strings.Join(items, " ")
+		c.Eval("sequence", cas)
+		c.Correspond("Stack+intPool instruction sequence~value semantics (exec_arith, op_DUP, op_SWAP, op_POP)", cas, obs, m.Ask("seq "+cas))
+		if aliasing != "" {
+			c.Violate("stack-aliasing/"+clipS(cas), aliasing, map[string]interface{}{"kind": "aliasing", "sequence": cas, "aliasing": aliasing})
+		}
+	}
+}
+
 // ---------------------------------------------------------------- fork -> table selection on random fork maps
 
 func checkSelection(c *vh.Ctx, m *vh.Model) {
@@ -1665,6 +1898,10 @@ func replay(c *vh.Ctx, m *vh.Model, w *world) {
 		checkStateGas(c, m)
 	case "highbits":
 		checkHighBits(c, m, w)
+	case "memrun":
+		checkMemRun(c, m, w)
+	case "aliasing":
+		checkAliasing(c, m)
 	default:
 		checkValidity(c, m, w)
 	}
@@ -1713,6 +1950,8 @@ func main() {
 	checkJumpdests(c, m, w)
 	checkFrames(c, m)
 	checkHighBits(c, m, w)
+	checkMemRun(c, m, w)
+	checkAliasing(c, m)
 	checkSha3Env(c, m)
 	checkStateGas(c, m)
 	checkRules(c, m, w)
